@@ -12,6 +12,8 @@ Module i lives in m<i>.er, the entry module is m0.er.  Every module
                                                                with project flag "backvar": .bk3() = m3.v)
                                       .getc(): Int = c_i
   * prints a marker at top level      print! "M:<i>"
+  * prints what it sees of every      print! "U:<i>:<j>:" + str(m_j.v) + ":" + m_j.tag     (imports that are complete)
+    module it imports
 The entry module finally prints every value it can see: "V:<j>:<m_j.v>", "T:<j>:<m_j.tag>" and "B:<j>:<k>:<m_j.bk<k>()>".
 
 `expected(project)` gives the intended observable behaviour by a direct simulation of "a module's top level runs once,
@@ -23,7 +25,7 @@ import shutil
 import subprocess
 import tempfile
 
-KINDS = ["dag", "diamond", "self", "cycle2", "cycle3", "shared-cycle", "entry-cycle", "random", "chain"]
+KINDS = ["dag", "diamond", "self", "cycle2", "cycle3", "shared-cycle", "entry-cycle", "random", "chain", "cycle-tail"]
 
 
 def _reachable(imports, root=0):
@@ -37,8 +39,74 @@ def _reachable(imports, root=0):
     return seen
 
 
+def gen_cycle_tail(rng, pos=None, clen=None):
+    """entry -> a -> .. -> z -> a (a 2- or 3-cycle below the entry); the module z whose import closes the cycle also
+    imports two modules that nobody else imports; the cycle-closing import is z's first / middle / last import"""
+    clen = clen or rng.choice([2, 3])
+    pos = pos if pos is not None else rng.choice([0, 1, 2])
+    cyc = list(range(1, clen + 1))
+    d1, d2 = clen + 1, clen + 2
+    n = clen + 3
+    imports = [[] for _ in range(n)]
+    imports[0] = [1]
+    for a, b in zip(cyc, cyc[1:]):
+        imports[a] = [b]
+    tail = [d1, d2]
+    tail.insert(pos, cyc[0])
+    imports[cyc[-1]] = tail
+    if rng.random() < 0.4:
+        imports[d2].append(d1)
+    consts = [rng.randint(1, 9) * 10 ** rng.randint(0, 2) for _ in range(n)]
+    return {"n": n, "imports": imports, "consts": consts, "kind": "cycle-tail", "defect": None}
+
+
+def order_variants(proj, rng, limit):
+    """the same import graph with other textual orders of the imports: for every module with >= 2 imports every
+    rotation and the reversal (the others unchanged), then random joint permutations, at most [limit] projects;
+    every imported name is used (no backvar, no lazy import)"""
+    import itertools
+    base = dict(proj)
+    base.pop("backvar", None)
+    base.pop("lazy_entry", None)
+    seen, out = set(), []
+
+    def add(imps):
+        key = json_key(imps)
+        if key in seen or len(out) >= limit:
+            return
+        seen.add(key)
+        q = dict(base)
+        q["imports"] = [list(l) for l in imps]
+        out.append(q)
+    seen.add(json_key(proj["imports"]))
+    for i, l in enumerate(proj["imports"]):
+        if len(l) < 2:
+            continue
+        cands = [l[k:] + l[:k] for k in range(1, len(l))] + [l[::-1]]
+        if len(l) <= 3:
+            cands = [list(x) for x in itertools.permutations(l)]
+        for c in cands:
+            imps = [list(x) for x in proj["imports"]]
+            imps[i] = list(c)
+            add(imps)
+    for _ in range(4 * limit):
+        if len(out) >= limit:
+            break
+        imps = [list(x) for x in proj["imports"]]
+        for x in imps:
+            rng.shuffle(x)
+        add(imps)
+    return out
+
+
+def json_key(imps):
+    return ";".join(",".join(map(str, l)) for l in imps)
+
+
 def gen_project(rng, kind=None, nmax=8):
     kind = kind or rng.choice(KINDS)
+    if kind == "cycle-tail":
+        return gen_cycle_tail(rng)
     lo = {"diamond": 4, "cycle2": 3, "cycle3": 4, "shared-cycle": 4, "entry-cycle": 2, "self": 1, "chain": 2}.get(kind, 1)
     n = rng.randint(lo, max(lo, nmax))
     imports = [[] for _ in range(n)]
@@ -167,6 +235,9 @@ def render(proj):
             else:
                 L.append("unused_local_%d = %d" % (i, i))
         L.append('print! "M:%d"' % i)
+        for j in imports[i]:
+            if (i, j) in complete and (i, j) not in unused:
+                L.append('print! "U:%d:%d:" + str(m%d.v) + ":" + m%d.tag' % (i, j, j, j))
         if i == 0:
             for j in imports[0]:
                 if (0, j) in unused:
@@ -191,6 +262,10 @@ def expected(proj):
     for i in order:
         lines.add("M:%d" % i)
     unused = unused_imports(proj)
+    for i in order:
+        for j in imports[i]:
+            if (i, j) in complete and (i, j) not in unused:
+                lines.add("U:%d:%d:%d:s%d" % (i, j, val[j], j))
     for j in imports[0]:
         if (0, j) in unused:
             continue
